@@ -7,7 +7,7 @@ import impl
 import msggen
 import sweep
 
-PROPFILES = ["props/C15.v"]
+PROPFILES = ["props/C15.v", "props/C15_src.v"]
 RULE = ("every (mode, definition) x every attribute kind (plain, scaled, bit flag, grouped, variant discriminator) x values "
         "from a pool: ints at/over each range edge, negative, huge, bool, floats incl. nan/inf/-0.0, str/bytes of lengths "
         "0..size+2, lists of wrong length/element type, None, tuple; BUILD correspondence + search on the implementation: "
